@@ -138,6 +138,8 @@ def replay(v, prop, overrides, forks, timeout, every=1, simulate=0):
             raise InfraError("design model violates %s with all deviation switches off (specification bug):\n%s" % (bad, out[-3000:]))
         if "Model checking completed" not in out and not simulate:
             raise InfraError("scenario emission did not complete:\n" + out[-2000:])
+        if simulate and "Finished in" not in out:
+            raise InfraError("TLC simulation did not run to its end:\n" + out[-2000:])
         if not os.path.exists(rep):
             raise InfraError("replayer wrote no report:\n" + out[-2000:])
         r = json.load(open(rep))
